@@ -109,6 +109,52 @@ theorem proj_unitary_covariant (A : Mat K m k) (U : Mat K m m) (GA GU : Mat K k 
   to_matrix
   exact Pf.proj_unitary _ _ _ _ hU hGA hGU
 
+/-- R6 (scale): the projection matrix does not depend on the scale of the basis — for every
+    invertible scalar `s` (every non-zero real / complex factor, `1e-15` as well as `1e15`)
+    `P_{sA} = P_A` -/
+theorem proj_scale_invariant (A : Mat K m k) (G G' : Mat K k k) (s si : K) (hs : s * si = 1)
+    (hG : matMul G (gram A) = eye) (hG' : matMul G' (gram (smul s A)) = eye) :
+    projWith G' (smul s A) = projWith G A := by
+  have e : smul s A = matMul A (smul s eye) := by
+    to_matrix
+    rw [Matrix.mul_smul, Matrix.mul_one]
+  have hT : matMul (smul s (eye : Mat K k k)) (smul si eye) = eye := by
+    to_matrix
+    rw [Matrix.smul_mul, Matrix.mul_smul, Matrix.one_mul, smul_smul, mul_comm, mul_comm si s, hs, one_smul]
+  rw [e] at hG' ⊢
+  exact proj_basis_invariant A (smul s eye) (smul si eye) G G' hT hG hG'
+
+/-- R5 (boundary): a square invertible basis spans the whole space: `P = 1`, `P⊥ = 0` -/
+theorem proj_of_square_invertible (A Ai G : Mat K m m) (hA : matMul A Ai = eye)
+    (hG : matMul G (gram A) = eye) :
+    projWith G A = eye ∧ oprojWith G A = (fun _ _ => 0) := by
+  have h1 := proj_fixes_A A G hG
+  have hP : projWith G A = eye := by
+    have h2 := congrArg toM h1
+    to_matrix at hA
+    apply toM_inj
+    simp only [toM_matMul, toM_eye] at h2 ⊢
+    calc toM (projWith G A) = toM (projWith G A) * (toM A * toM Ai) := by rw [hA, Matrix.mul_one]
+      _ = (toM (projWith G A) * toM A) * toM Ai := by rw [Matrix.mul_assoc]
+      _ = 1 := by rw [h2, hA]
+  refine ⟨hP, ?_⟩
+  unfold oprojWith
+  rw [hP]
+  funext i j
+  simp [msub]
+
+/-- R5 (boundary): the empty basis (`k = 0` columns) projects onto `{0}`: `P = 0`, `P⊥ = 1` -/
+theorem proj_of_empty_basis (A : Mat K m 0) (G : Mat K 0 0) :
+    projWith G A = (fun _ _ => 0) ∧ oprojWith G A = eye := by
+  have hP : projWith G A = (fun _ _ => 0) := by
+    funext i j
+    simp [projWith, matMul, sumFin]
+  refine ⟨hP, ?_⟩
+  unfold oprojWith
+  rw [hP]
+  funext i j
+  simp [msub]
+
 end projection
 
 section chordal
@@ -164,6 +210,16 @@ theorem chordal_eq_chordal2 (A Q1 : Mat K m p) (B Q2 : Mat K m q)
     to_matrix
     exact Pf.proj_of_qr _ _ _ _ _ hQ2 hB hR2 hGB
   simp only [chordal, chordal2, e1, e2]
+
+/-- R6 (scale): the chordal distance does not depend on the scales of the two bases
+    (each may be multiplied by its own invertible factor) -/
+theorem chordal2_scale_invariant (A : Mat K m p) (B : Mat K m q) (GA GA' : Mat K p p) (GB GB' : Mat K q q)
+    (s si t ti : K) (hs : s * si = 1) (ht : t * ti = 1)
+    (hGA : matMul GA (gram A) = eye) (hGB : matMul GB (gram B) = eye)
+    (hGA' : matMul GA' (gram (smul s A)) = eye) (hGB' : matMul GB' (gram (smul t B)) = eye) :
+    chordal2 GA' GB' (smul s A) (smul t B) = chordal2 GA GB A B := by
+  simp only [chordal2]
+  rw [proj_scale_invariant A GA GA' s si hs hGA hGA', proj_scale_invariant B GB GB' t ti ht hGB hGB']
 
 end chordal
 section complex
